@@ -587,6 +587,16 @@ func c14Execute(c *C14Case, sequential bool, conc *c14Run) (*c14Run, []ev.Discre
 						pos = refclient.Pos{Line: max(0, strings.Count(curText[doc], "\n")-1)}
 					}
 					resp, aerr = ask2(h, op.Kind, uri, pos)
+					if op.WaitBumped && !sequential {
+						// a request that never reaches templates.computed has been answered inside the
+						// window all the same: the refresh may go on
+						c14h.mu.Lock()
+						if ch := c14h.meet2; ch != nil {
+							c14h.meet2 = nil
+							close(ch)
+						}
+						c14h.mu.Unlock()
+					}
 					if aerr != nil {
 						panic(aerr)
 					}
@@ -1024,6 +1034,27 @@ func genC14(t *rapid.T, p *gen.Profile) *C14Case {
 				C14Op{Op: "release", Together: true, Wait: 2},
 				C14Op{Op: "request", Doc: from, Kind: rapid.SampledFrom([]string{"completion", "hover", "references"}).Draw(t, "fpkind"),
 					Pos: refclient.Pos{Line: rapid.IntRange(0, 12).Draw(t, "fpline"), Char: rapid.IntRange(0, 30).Draw(t, "fpchar")}, Wait: 2})
+			break
+		}
+	}
+	if n >= 2 && !contains(c.Pats, "pattern:request-inside-setSettings") && rapid.IntRange(0, 3).Draw(t, "bumpedpattern") == 0 {
+		// without a workspace folder: the include limits change, and a request that resolves an include
+		// tree is answered while the refresh stands inside setSettings (old trees outdated, the rest not
+		// yet done); the same request once everything has settled must see the new limits
+		for from := 0; from < n; from++ {
+			if len(ws.Includes[from]) == 0 {
+				continue
+			}
+			c.Root = false
+			c.Pats = append(c.Pats, "pattern:request-inside-setSettings-without-a-folder")
+			pos := refclient.Pos{Line: rapid.IntRange(0, 12).Draw(t, "bpline"), Char: rapid.IntRange(0, 30).Draw(t, "bpchar")}
+			c.Ops = append(c.Ops,
+				C14Op{Op: "open", Doc: from, Wait: 2},
+				C14Op{Op: "request", Doc: from, Kind: "completion", Pos: pos, Wait: 2},
+				C14Op{Op: "config", Doc: from, Config: map[string]any{"limits": map[string]any{"maxIncludeDepth": float64(rapid.IntRange(1, 2).Draw(t, "bpdepth"))}}, RendezvousBumped: true},
+				C14Op{Op: "request", Doc: from, Kind: "completion", Pos: pos, WaitBumped: true, Wait: 2},
+				C14Op{Op: "request", Doc: from, Kind: "completion", Pos: pos, Wait: 2},
+				C14Op{Op: "request", Doc: from, Kind: "references", Pos: pos, Wait: 2})
 			break
 		}
 	}
